@@ -76,7 +76,7 @@ pub fn elem(ty: Ty, tier: Tier, size: u8) -> BoxedStrategy<Val> {
 }
 
 pub fn mat_spec(ty: Ty, tier: Tier, maxdim: u8) -> BoxedStrategy<MatSpec> {
-    let dim = move || prop_oneof![1 => Just(0u8), 2 => Just(1u8), 8 => 0..=maxdim];
+    let dim = move || prop_oneof![1 => Just(0u8), 1 => Just(1u8), 12 => 1..=maxdim.max(1), 2 => maxdim.saturating_sub(1).max(1)..=maxdim.max(1)];
     let size = prop_oneof![5 => Just(0u8), 3 => Just(1u8), 2 => Just(2u8)];
     size.prop_flat_map(move |sz| {
         let e = elem(ty, tier, sz);
